@@ -87,7 +87,9 @@ def run(ctx):
         for k in se.all_events("K"):
             try:
                 e = _sym_of(k.args[0], f, sym)
-                ok = sp.simplify(e - sym["a"] * sym["dt"] / 2) == 0
+                # acc*dt/2, or the same acceleration written out from the current force (ACC_SCALE * F * mass_inverse): wherever a kick stands in the accepted
+                # words the stored acceleration and the current force describe the same geometry, or the force is the newer one that the kick must use
+                ok = sp.simplify(e - sym["a"] * sym["dt"] / 2) == 0 or sp.simplify(e - sym["ACC"] * sym["F"] * sym["minv"] * sym["dt"] / 2) == 0
             except AnalysisError as ex:
                 e, ok = str(ex), False
             ctx.check(ok, "R1", m, k, q, k, "half kick adds acc*dt/2 with dt = self.timestep",
